@@ -198,6 +198,7 @@ def sources(ctx):
 
 
 def run_kparse(ctx):
+    run_kunparse(ctx)
     import jinja2
     from jinja2.exceptions import TemplateSyntaxError
     env = jinja2.Environment()
@@ -243,6 +244,57 @@ def run_kparse(ctx):
                 ctx.model_mismatch("K-parse", case, m[:400], real[:400], None)
             else:
                 ctx.validated()
+
+
+OPTEXT = {"add": "+", "sub": "-", "mul": "*", "div": "/", "floordiv": "//", "mod": "%", "pow": "**", "tilde": "~", "eq": "==",
+          "ne": "!=", "lt": "<", "lteq": "<=", "gt": ">", "gteq": ">=", "lparen": "(", "rparen": ")", "lbracket": "[",
+          "rbracket": "]", "lbrace": "{", "rbrace": "}", "dot": ".", "comma": ",", "colon": ":", "pipe": "|", "assign": "="}
+
+
+def tokens_to_text(sx):
+    out = []
+    for t in sx:
+        if isinstance(t, str):
+            out.append(OPTEXT[t])
+        elif t[0] == "name":
+            out.append("".join(chr(int(c)) for c in t[1][1:]))
+        elif t[0] == "int":
+            out.append(t[1])
+        elif t[0] == "str":
+            out.append('"' + "".join(chr(int(c)) for c in t[1][1:]) + '"')
+    return " ".join(out)
+
+
+def run_kunparse(ctx):
+    """the printer of C02_parse_unparse against the REAL parser: for generated trees in printable
+    normal form, Parser.parse_expression(text(unparse e)) == e, and the model parser with its default
+    fuel agrees (the theorem is stated for sufficiently large fuel)"""
+    import jinja2
+    env = jinja2.Environment()
+    g = X.EGen(ctx.rng)
+    trees = [g.gen(ctx.rng.randint(1, ctx.size(4, 6))) for _ in range(ctx.size(1500, 30000))]
+    trees += [e for e, _ in fixed_eval_cases()]
+    outs = ctx.driver("expr", ["unparse " + X.enc_expr(e) for e in trees])
+    for e, o in zip(trees, outs):
+        if o.startswith("BAD"):
+            raise RuntimeError("driver rejected unparse case " + o)
+        f = X.split_fields(o)
+        if f["W"] != "1":
+            ctx.count("unparse_not_normal_form")
+            continue
+        text = tokens_to_text(X.parse_sx(f["T"])[0])
+        want = "ok " + X.enc_expr(e)
+        case = {"kind": "parse", "src": text, "printed": False, "tree": repr(e)}
+        ctx.case(sample={"unparse": text} if len(text) > 25 else None, key=("unparse", text) if len(text) > 8 else None)
+        ctx.count("unparse_ok")
+        if f["P"] != want:
+            ctx.model_mismatch("C02_parse_unparse vs extracted parser at default fuel", case, f["P"][:300], want[:300], None)
+            continue
+        real, _tree = real_parse(env, text, False)
+        if real != want:
+            ctx.model_mismatch("K-unparse (real parser on the model's print)", case, want[:300], real[:300], None)
+        else:
+            ctx.validated()
 
 
 def fixed_eval_cases():
